@@ -2,7 +2,7 @@
    the backing slice unchanged outside the cells of the view it was given, never
    panics when the view's cells lie inside the slice, and keeps the shape / length. *)
 From Coq Require Import List Arith Bool NArith ZArith Lia.
-From SNT Require Import Base.Outcome Surface.Bounds Surface.Shape Render.CellLayout Render.Writer.
+From SNT Require Import Base.Outcome Surface.Bounds Surface.Shape Render.CellLayout Render.Writer Render.TokFuel.
 Import ListNotations.
 
 (* ---------- list_upd ---------- *)
@@ -244,6 +244,66 @@ Proof.
   destruct s; eauto.
 Qed.
 
+(* ---------- escape-sequence writer ---------- *)
+Lemma put_char_keeps ctx st ch st' b : put_char ctx st ch = Ok (st', b) -> Keeps st st'.
+Proof. apply put_cell_keeps. Qed.
+
+Lemma tty_apply_keeps ctx items : forall st st', tty_apply ctx st items = Ok st' -> Keeps st st'.
+Proof.
+  induction items as [|it t IH]; intros st st'; cbn [tty_apply].
+  - intros [= <-]. apply keeps_refl.
+  - destruct it as [ch|seq|raw].
+    + destruct (put_char ctx st ch) as [[st1 f]| | |] eqn:H1; try discriminate.
+      intros H. eapply keeps_trans; [eapply put_char_keeps; exact H1|apply IH, H].
+    + intros H. eapply keeps_trans; [|apply IH, H]. apply keeps_same; reflexivity.
+    + apply IH.
+Qed.
+
+Lemma tty_apply_total ctx items : forall st, InBounds (w_sh st) (length (w_data st)) ->
+  exists st', tty_apply ctx st items = Ok st'.
+Proof.
+  induction items as [|it t IH]; intros st Hb; cbn [tty_apply]; eauto.
+  destruct it as [ch|seq|raw].
+  - destruct (put_cell_total ctx st (mkCell (w_face st) (KChar ch)) Hb) as (st1 & f & H1).
+    unfold put_char. rewrite H1. apply IH. eapply keeps_inbounds; [eapply put_cell_keeps; exact H1|exact Hb].
+  - apply IH. exact Hb.
+  - apply IH. exact Hb.
+Qed.
+
+Lemma tty_write_keeps ctx bytes : forall st ts st' ts', tty_write ctx st ts bytes = Ok (st', ts') -> Keeps st st'.
+Proof.
+  induction bytes as [|b t IH]; intros st ts st' ts'; cbn [tty_write].
+  - intros [= <- <-]. apply keeps_refl.
+  - destruct (tok_feed (cmd_dfa ctx) ts b) as [[ts1 items]| | |]; try discriminate.
+    destruct (tty_apply ctx st items) as [st1| | |] eqn:H1; try discriminate.
+    intros H. eapply keeps_trans; [eapply tty_apply_keeps; exact H1|eapply IH; exact H].
+Qed.
+
+Lemma tty_write_total ctx bytes : forall st ts, InBounds (w_sh st) (length (w_data st)) -> CandOk ts ->
+  exists st' ts', tty_write ctx st ts bytes = Ok (st', ts') /\ CandOk ts'.
+Proof.
+  induction bytes as [|b t IH]; intros st ts Hb Hc; cbn [tty_write]; eauto.
+  destruct (tok_feed_total (cmd_dfa ctx) ts b Hc) as (ts1 & items & -> & Hc1 & _).
+  destruct (tty_apply_total ctx items st Hb) as (st1 & H1). rewrite H1.
+  apply IH; [|exact Hc1]. eapply keeps_inbounds; [eapply tty_apply_keeps; exact H1|exact Hb].
+Qed.
+
+Lemma tty_chunks_keeps ctx chunks : forall st ts st' ts', tty_chunks ctx st ts chunks = Ok (st', ts') -> Keeps st st'.
+Proof.
+  induction chunks as [|c t IH]; intros st ts st' ts'; cbn [tty_chunks].
+  - intros [= <- <-]. apply keeps_refl.
+  - destruct (tty_write ctx st ts c) as [[st1 ts1]| | |] eqn:H1; try discriminate.
+    intros H. eapply keeps_trans; [eapply tty_write_keeps; exact H1|eapply IH; exact H].
+Qed.
+
+Lemma tty_chunks_total ctx chunks : forall st ts, InBounds (w_sh st) (length (w_data st)) -> CandOk ts ->
+  exists st' ts', tty_chunks ctx st ts chunks = Ok (st', ts') /\ CandOk ts'.
+Proof.
+  induction chunks as [|c t IH]; intros st ts Hb Hc; cbn [tty_chunks]; eauto.
+  destruct (tty_write_total ctx c st ts Hb Hc) as (st1 & ts1 & H1 & Hc1). rewrite H1.
+  apply IH; [|exact Hc1]. eapply keeps_inbounds; [eapply tty_write_keeps; exact H1|exact Hb].
+Qed.
+
 (* ---------- client programs ---------- *)
 Lemma wop_step_keeps ctx st o st' b : wop_step ctx st o = Ok (st', b) -> Keeps st st'.
 Proof.
@@ -255,6 +315,8 @@ Proof.
   - apply write_chunks_keeps.
   - destruct (write_chunks ctx (set_dec st u0) chunks) as [[st1 f]| | |] eqn:H1; try discriminate.
     intros [= <- <-]. apply write_chunks_keeps in H1. exact H1.
+  - destruct (tty_chunks ctx st (t0 (cmd_dfa ctx)) chunks) as [[st1 ts1]| | |] eqn:H1; try discriminate.
+    intros [= <- <-]. eapply tty_chunks_keeps; exact H1.
 Qed.
 
 Lemma wop_step_total ctx st o : InBounds (w_sh st) (length (w_data st)) ->
@@ -265,6 +327,7 @@ Proof.
   - now apply put_cell_total.
   - now apply write_chunks_total.
   - destruct (write_chunks_total ctx chunks (set_dec st u0) Hb) as (st1 & f & ->). eauto.
+  - destruct (tty_chunks_total ctx chunks st (t0 (cmd_dfa ctx)) Hb (t0_candok _)) as (st1 & ts1 & -> & _). eauto.
 Qed.
 
 Lemma wops_run_keeps ctx ops : forall st st' bs, wops_run ctx st ops = Ok (st', bs) -> Keeps st st'.
